@@ -5,8 +5,8 @@
     ordinates, divided-difference table) for every input form and arity, `__call__`, `derivative`,
     `root`, `minmax`, `planetary_conjunction`, `planet_star_conjunction`; the exact (Rat)
     instantiation on tables with small integer/dyadic entries (construction, value, derivative:
-    relative 1e-9; `root` only with a small iteration budget, the exact iterates double in size
-    at every Newton step).
+    relative 1e-9; `root`/`minmax` are tied in binary64 only: the exact iterates double in size at
+    every Newton step and the exit test `abs(y) > tol` may fall on the other side).
 (I) predicates on the implementation, with an independent oracle: the Lagrange interpolant of the
     same table evaluated in exact rational arithmetic (Python Fractions), and the exact polynomial
     the data were sampled from.
@@ -41,10 +41,12 @@ MANIFEST = dict(
           "polynomial; abscissae outside the table, duplicated abscissae and wrong arities are refused with "
           "ValueError; partial correctness of root(): a returned abscissa lies inside the requested interval "
           "clamped to the table and the interpolant there is within the tolerance; minmax() is root() of the "
-          "derivative. The model is tied to /repo by running its binary64 instantiation against the real code bit "
+          "derivative polynomial; planetary_conjunction returns a time inside the table at which the interpolated "
+          "right-ascension difference is within the tolerance of zero. The model is tied to /repo by running its binary64 instantiation against the real code bit "
           "for bit (construction, value, derivative, root, minmax, conjunction helpers) and the predicates of every "
           "clause are evaluated on the implementation against an exact rational Lagrange oracle. Not carried by a "
-          "theorem: convergence of the Newton/secant iteration (only 'returns within max_iter or raises'), the "
+          "theorem: convergence of the Newton/false-position iteration (only 'returns within max_iter or raises'; the "
+          "implementation gives up on brackets with a flat stretch: listed finding), the "
           "relative 1e-9 of the binary64 evaluation (checked on tables whose node spacing ratio is <= 20, see "
           "ASSUMPTIONS), planet_stars_in_line and minimum_angular_separation (trigonometric set-up; predicates only)."),
     note=("Trusted: Lean kernel, Mathlib, axioms propext/Classical.choice/Quot.sound; the hand-written model "
